@@ -5,7 +5,7 @@ import inspect
 import io
 import json
 
-from core import Result, stable
+from core import Result, guard, stable
 
 RULE = ("random schemas over every built-in field class, untyped and typed lists/dicts (items: fields, schemas, config types; nested generics), "
         "nested schemas, config-type fields, virtual fields and instance methods whose signatures mix positional-only, positional, defaults, *args, "
@@ -497,12 +497,147 @@ def gen_spec(rng):
     return spec
 
 
+def extension_fields_stream(ctx, res):
+    """Schemas as an application writes them: (a) its own subclasses of VirtualField (a reusable computed field passing its getter to
+    super().__init__) and of InstanceMethodField next to the built-in ones — declared like their base classes: an annotated attribute
+    but no constructor parameter for the computed one, a `def` with the bound function's parameters for the method; (b) instance
+    methods whose annotations are STRINGS (postponed evaluation, quoted forward references, a quote at one end only:
+    `'Node' | None`, `int | 'Node'`): the stub stays valid Python and the annotation is declared as written; (c) a live
+    configuration whose computed fields have getters that count their calls, raise, or change the configuration: generating the stub
+    evaluates none of them.  Schema, live configuration and config type alike"""
+    import cincoconfig as cc
+    calls = []
+
+    class UptimeField(cc.VirtualField):
+        def __init__(self, unit=1, **kw):
+            self.unit = unit
+            super().__init__(self._get, **kw)
+
+        def _get(self, cfg):
+            calls.append("UptimeField")
+            return 5 * self.unit
+
+    class SettableUrl(cc.VirtualField):
+        def __init__(self, **kw):
+            super().__init__(lambda cfg: "http://%s:%s" % (cfg.host, cfg.port), setter=self._set, **kw)
+
+        def _set(self, cfg, value):
+            calls.append("SettableUrl.set")
+            cfg.host = value
+
+    class TracedMethodField(cc.InstanceMethodField):
+        def __getval__(self, cfg):
+            return super().__getval__(cfg)
+
+    def connect(cfg, timeout: float, /, retries: int = 3, *hosts: str, secure: bool = False, **options) -> bool:
+        return True
+
+    def link(cfg, other: "'Node' | None", weight: "int | 'Weight'" = 1, *, label: "str") -> "'Node' | None":
+        return None
+
+    def grow(cfg, by: "int" = 1) -> "int | 'Node'":
+        return by
+
+    def counting(cfg):
+        calls.append("counting getter")
+        return 1
+
+    def raising(cfg):
+        calls.append("raising getter")
+        raise RuntimeError("not available yet")
+
+    def changing(cfg):
+        calls.append("changing getter")
+        cfg.port = cfg.port + 1
+        return cfg.port
+    s = cc.Schema()
+    s.host = cc.StringField(default="h")
+    s.port = cc.IntField(default=1)
+    s.uptime = UptimeField(unit=60)
+    s.plain_virtual = cc.VirtualField(lambda cfg: 1)
+    s.url = SettableUrl()
+    s.connect = TracedMethodField(connect)
+    s.ping = cc.InstanceMethodField(lambda cfg, n=1: n)
+    s.link = cc.InstanceMethodField(link)
+    s.grow = TracedMethodField(grow)
+    s.db.name = cc.StringField(default="d")
+    s.db.size = UptimeField()
+    s.db.total = cc.VirtualField(counting)
+    s.db.broken = cc.VirtualField(raising)
+    s.db.bump = cc.VirtualField(changing)
+    s.total = cc.VirtualField(counting)
+    s.broken = cc.VirtualField(raising)
+    s.bump = cc.VirtualField(changing)
+    s.mode = cc.ApplicationModeField(modes=["dev", "prod"], default="dev")
+    virtual = {"uptime", "plain_virtual", "url", "total", "broken", "bump", "is_dev_mode", "is_prod_mode"}
+    methods = {"connect": connect, "ping": s._fields["ping"].method, "link": link, "grow": grow}
+    string_annotations = {"link": {"other": "'Node' | None", "weight": "int | 'Weight'", "label": "str", "return": "'Node' | None"}, "grow": {"by": "int", "return": "int | 'Node'"}}
+    Typed = cc.make_type(s, "ExtThing")
+    live = s()
+    for via, target, args in (("schema", s, ("ExtThing",)), ("config", live, ("ExtThing",)), ("ctype", Typed, ()), ("ctype-instance", Typed(), ("ExtThing",))):
+        case = {"stream": "extension-fields", "via": via}
+        res.case(stable(case), kind="extension-fields")
+        del calls[:]
+        held = (live.port, live.db.name)
+        buf = io.StringIO()
+        try:
+            with contextlib.redirect_stdout(buf):
+                text = cc.generate_stub(target, *args)
+        except Exception as e:  # noqa
+            res.violate("C20:raised:%s:extension" % type(e).__name__, "generate_stub raised %s: %s" % (type(e).__name__, str(e)[:80]), case)
+            continue
+        if calls or (live.port, live.db.name) != held:
+            res.violate("C20:mutated", "generating the stub evaluated computed fields of the configuration (getters ran: %s)" % sorted(set(calls)), dict(case, calls=calls[:6]))
+        if buf.getvalue():
+            res.violate("C20:stdout", "generate_stub wrote to standard output", case)
+        try:
+            tree = ast.parse(text)
+            compile(text, "<stub>", "exec")
+        except SyntaxError as e:
+            res.violate("C20:syntax", "the generated stub is not valid Python: %s" % e, dict(case, text=text))
+            continue
+        cdefs = [n for n in tree.body if isinstance(n, ast.ClassDef)]
+        if len(cdefs) != 1:
+            res.violate("C20:one-class", "the stub does not declare exactly one class", dict(case, text=text))
+            continue
+        body = cdefs[0].body
+        attrs = [n.target.id for n in body if isinstance(n, ast.AnnAssign) and isinstance(n.target, ast.Name)]
+        want_attrs = [k for k, f in s._fields.items() if k not in methods]
+        if attrs != want_attrs:
+            res.violate("C20:attrs", "the annotated attributes are not exactly the non-method fields (subclasses of the virtual / method field classes included)",
+                        dict(case, got=attrs, want=want_attrs))
+        defs = {d.name: d for d in body if isinstance(d, ast.FunctionDef)}
+        init = defs.pop("__init__", None)
+        want_init = ["self"] + [k for k in s._fields if k not in methods and k not in virtual]
+        got_init = [p.arg for p in init.args.args] if init is not None else None
+        if got_init != want_init:
+            res.violate("C20:init", "the constructor does not take exactly the persistent fields (a computed field of an application's subclass is not persistent)",
+                        dict(case, got=got_init, want=want_init))
+        if list(defs) != list(methods):
+            res.violate("C20:methods", "the methods are not exactly the instance-method fields (an application's subclass included)", dict(case, got=list(defs), want=list(methods)))
+            continue
+        for name, fn_ in methods.items():
+            want = [[p.name, KIND[p.kind]] for p in inspect.signature(fn_).parameters.values()]
+            want[0][0] = "self"
+            got = read_params(defs[name].args)
+            if got != want:
+                res.violate("C20:method-kinds:other", "a method's parameters differ in name or kind from the bound function", dict(case, method=name, got=got, want=want))
+            if name in string_annotations:
+                a = defs[name].args
+                got_ann = {p.arg: ast.unparse(p.annotation) for p in a.posonlyargs + a.args + a.kwonlyargs if p.annotation is not None}
+                got_ann["return"] = ast.unparse(defs[name].returns) if defs[name].returns else None
+                want_ann = {k: ast.unparse(ast.parse(v, mode="eval").body) for k, v in string_annotations[name].items()}
+                if got_ann != want_ann:
+                    res.violate("C20:method-annotation", "a string annotation is not declared as it was written", dict(case, method=name, got=got_ann, want=want_ann))
+
+
 def run(ctx, n_quick=600, n_thorough=30000):
     res = Result()
     reqs, pend = [], []
     for _ in range(ctx.n(n_quick, n_thorough)):
         check_one(ctx, res, gen_spec(ctx.rng), reqs, pend)
     compare(ctx, res, reqs, pend)
+    guard(res, "C20", extension_fields_stream, ctx, res)
     return res
 
 
